@@ -217,3 +217,30 @@ Qed.
 (* ... so with a tolerance below 1 that criterion is never met, whatever the samples *)
 Theorem zerr_code_never_met l tol : has_finite l -> tol < 1 -> ~ (zerr_code_R l <= tol).
 Proof. intros Hf Ht Hc. generalize (zerr_code_ge_one l Hf). lra. Qed.
+
+(* ---- the standard sampler's condition ln(Z + Lmax X) - ln Z ---------------------------------------- *)
+(* positive for every state ... *)
+Lemma stdcond_pos z l it nlive : 0 < stdcond_R z l it nlive.
+Proof.
+  unfold stdcond_R. set (a := l - IZR it / IZR nlive).
+  assert (H : z < ln (exp z + exp a)).
+  { rewrite <- (ln_exp z) at 1. apply ln_increasing; [apply exp_pos|].
+    generalize (exp_pos a). lra. }
+  lra.
+Qed.
+
+(* ... and, with the evidence and the largest likelihood held fixed, strictly decreasing in the iteration:
+   the remaining-prior-volume term shrinks at every step *)
+Lemma stdcond_decreasing z l it it' nlive :
+  (0 < nlive)%Z -> (it < it')%Z -> stdcond_R z l it' nlive < stdcond_R z l it nlive.
+Proof.
+  intros Hn Hlt. unfold stdcond_R.
+  assert (Hn' : 0 < IZR nlive) by (apply (IZR_lt 0); exact Hn).
+  assert (Hi : IZR it < IZR it') by (apply IZR_lt; exact Hlt).
+  assert (Hd : IZR it / IZR nlive < IZR it' / IZR nlive).
+  { unfold Rdiv. apply Rmult_lt_compat_r; [apply Rinv_0_lt_compat; exact Hn'|exact Hi]. }
+  assert (He : exp (l - IZR it' / IZR nlive) < exp (l - IZR it / IZR nlive)) by (apply exp_increasing; lra).
+  assert (Hl : ln (exp z + exp (l - IZR it' / IZR nlive)) < ln (exp z + exp (l - IZR it / IZR nlive))).
+  { apply ln_increasing; [generalize (exp_pos z) (exp_pos (l - IZR it' / IZR nlive)); lra|lra]. }
+  lra.
+Qed.
